@@ -1,5 +1,237 @@
+import SamVerif.Model.EnumLayout
+import SamVerif.Model.TailRec
 import Driver.Util
-/-! Line-protocol driver for property C01 (model side). Not implemented yet. -/
+/-! Line-protocol driver for property C01 (model side): protocols `layout`, `tailrec`, `cpe`.
+Each line carries, after `##`, the model-side description of the same input that the harness
+(harness/src/bin/c01.rs) receives in front of it. -/
+namespace Driver.C01
+open Driver SamVerif
+
+/-! ### token reader -/
+abbrev P := StateT (List String) Option
+
+def tok : P String := fun ts => match ts with
+  | [] => none
+  | t :: rest => some (t, rest)
+
+def num : P Nat := do
+  let t ← tok
+  match t.toNat? with
+  | some n => pure n
+  | none => failure
+
+def rep {α} (n : Nat) (p : P α) : P (List α) :=
+  match n with
+  | 0 => pure []
+  | n + 1 => do let a ← p; let r ← rep n p; pure (a :: r)
+
+/-! ### layout -/
+open EnumLayout in
+def ty : P Ty := do
+  let t ← tok
+  if t == "i" then pure .int
+  else if t == "v" then pure .vec
+  else if t.startsWith "r" then
+    match (t.drop 1).toString.toNat? with
+    | some n => pure (.ref n)
+    | none => failure
+  else failure
+
+open EnumLayout in
+def tys : P (List Ty) := do let n ← num; rep n ty
+
+open EnumLayout in
+def decl : P Decl := do
+  let _ ← tok            -- "T"
+  let targs ← tys
+  let k ← tok
+  if k == "S" then do let fs ← tys; pure { targs, body := .struct fs }
+  else if k == "C" then do let fs ← tys; pure { targs, body := .closure fs }
+  else if k == "E" then do
+    let n ← num
+    let vs ← rep n tys
+    pure { targs, body := .enum vs }
+  else failure
+
+open EnumLayout in
+def showRepr : VRepr → String
+  | .int31 => "I"
+  | .unboxed n => s!"U({n})"
+  | .boxed ts => s!"B{ts.length}"
+
+open EnumLayout in
+def showDef : MDef → String
+  | .struct n => s!"S{n}"
+  | .enum rs => "E:" ++ ",".intercalate (rs.map showRepr)
+
+open EnumLayout in
+def layoutLine (rest : String) : String :=
+  match rest.splitOn "##" with
+  | [_, m] =>
+    let parts := m.splitOn "|"
+    match parts with
+    | rootsS :: declsS =>
+      let roots := (tys.run (words rootsS)).map (·.1)
+      let decls := declsS.map fun d => (decl.run (words d)).map (·.1)
+      match roots, decls.all Option.isSome with
+      | some roots, true =>
+        let env : Env := decls.filterMap id
+        match demandAll env (2 * env.length + 8) roots with
+        | none => "nofuel"
+        | some st =>
+          let ds := st.defs.reverse
+          let idxs := (List.range env.length).filter fun n => (lookupDef st.defs n).isSome
+          let _ := ds
+          "ok " ++ ";".intercalate (idxs.map fun n =>
+            s!"{n}=" ++ (match lookupDef st.defs n with | some d => showDef d | none => "?"))
+      | _, _ => "bad-model-line"
+    | _ => "bad-model-line"
+  | _ => "bad-model-line"
+
+/-! ### tailrec -/
+open TailRec in
+def nameOf (t : String) : Option Nat :=
+  if t.startsWith "p" then (t.drop 1).toString.toNat?
+  else if t.startsWith "x" then ((t.drop 1).toString.toNat?).map (· + 1000)
+  else none
+
+open TailRec in
+def expr : P Expr := do
+  let t ← tok
+  match t.toInt? with
+  | some n => pure (.lit n)
+  | none => match nameOf t with
+    | some x => pure (.var x)
+    | none => failure
+
+def opOf : String → Option Opt.Op
+  | "mul" => some .mul | "div" => some .div | "mod" => some .mod | "add" => some .add
+  | "sub" => some .sub | "and" => some .land | "or" => some .lor | "shl" => some .shl
+  | "shr" => some .shr | "xor" => some .xor | "lt" => some .lt | "le" => some .le
+  | "gt" => some .gt | "ge" => some .ge | "eq" => some .eq | "ne" => some .ne
+  | _ => none
+
+open TailRec in
+partial def body : P Body := do
+  let t ← tok
+  if t == "R" then do let e ← expr; pure (.ret e)
+  else if t == "T" then do let n ← num; let as ← rep n expr; pure (.tail as)
+  else if t == "I" then do let c ← expr; let a ← body; let b ← body; pure (.ite c a b)
+  else if t == "B" then do
+    let x ← tok
+    let o ← tok
+    let e1 ← expr
+    let e2 ← expr
+    let k ← body
+    match nameOf x, opOf o with
+    | some x, some o => pure (.bin x o e1 e2 k)
+    | _, _ => failure
+  else failure
+
+def parseArgs (s : String) : List (List Int) :=
+  (s.splitOn ";").filterMap fun t =>
+    let t := t.trimAscii.toString
+    if t.isEmpty then none else some ((t.splitOn ",").filterMap fun x => x.trimAscii.toString.toInt?)
+
+def showO : Option Int → String
+  | some v => s!"ret:{v}"
+  | none => "none"
+
+open TailRec in
+def tailrecLine (rest : String) : String :=
+  match rest.splitOn "##" with
+  | [h, m] =>
+    match h.splitOn "|" with
+    | [_, argsS, _] =>
+      match (do let n ← num; let b ← body; pure (n, b) : P (Nat × Body)).run (words m) with
+      | some ((n, b), _) =>
+        let params := List.range n
+        let fuel := 5000
+        match rw b with
+        | none => "norewrite " ++ ";".intercalate ((parseArgs argsS).map fun a =>
+            showO (runRec Opt.evalTarget params b fuel a))
+        | some l =>
+          s!"rewritten safe={safeArgs params l} " ++ ";".intercalate ((parseArgs argsS).map fun a =>
+            showO (runRec Opt.evalTarget params b fuel a) ++ "/" ++
+            showO (TailRec.runLoop Opt.evalTarget true params l fuel a) ++ "/" ++
+            showO (TailRec.runLoop Opt.evalTarget false params l fuel a))
+      | none => "bad-model-line"
+    | _ => "bad-model-line"
+  | _ => "bad-model-line"
+
+/-! ### cpe -/
+open TailRec in
+def arg : P Arg := do
+  let t ← tok
+  match t.toInt? with
+  | some n => pure (.i32 n)
+  | none =>
+    if t.startsWith "j" then
+      match (t.drop 1).toString.toInt? with
+      | some n => pure (.i31 n)
+      | none => failure
+    else match nameOf t with
+      | some x => pure (.var x)
+      | none => failure
+
+def fnameOf (t : String) : Nat :=
+  if t.startsWith "f" then ((t.drop 1).toString.toNat?).getD 998 else 999
+
+open TailRec in
+def atom : P Atom := do
+  let t ← tok
+  if t == "r" then do
+    let x ← tok
+    match nameOf x with
+    | some x => pure (.read x)
+    | none => failure
+  else if t == "c" then do
+    let f ← tok
+    let n ← num
+    let as ← rep n arg
+    pure (.call (fnameOf f) as)
+  else failure
+
+open TailRec in
+def fnP : P Fn := do
+  let _ ← tok   -- "F"
+  let f ← tok
+  let n ← num
+  let cl ← num
+  let k ← num
+  let atoms ← rep k atom
+  pure { name := fnameOf f, params := List.range n, atoms, closureTarget := cl != 0 }
+
+open TailRec in
+def showP : PState → String
+  | .unused => "U" | .referenced => "R" | .c32 n => s!"C{n}" | .c31 n => s!"J{n}"
+  | .cstr n => s!"S{n}" | .unopt => "X"
+
+open TailRec in
+def cpeLine (rest : String) : String :=
+  match rest.splitOn "##" with
+  | [_, m] =>
+    match (do let n ← num; rep n fnP : P (List Fn)).run (words m) with
+    | some (fs, _) =>
+      "ok " ++ ";".intercalate ((TailRec.decide fs).map fun (f, st) =>
+        s!"f{f}=" ++ (match st with
+          | none => "-"
+          | some ps => ",".intercalate (ps.map showP)))
+    | none => "bad-model-line"
+  | _ => "bad-model-line"
+
+def step (_ : Unit) (line : String) : Unit × String :=
+  let line := line.trimAscii.toString
+  let (k, rest) := match line.splitOn " " with
+    | k :: r => (k, " ".intercalate r)
+    | [] => ("", "")
+  ((), if k == "layout" then layoutLine rest
+       else if k == "tailrec" then tailrecLine rest
+       else if k == "cpe" then cpeLine rest
+       else "bad-line")
+
+end Driver.C01
+
 def main (_args : List String) : IO UInt32 := do
-  IO.eprintln "drv-c01: not implemented yet"
-  return 2
+  Driver.runLoop () Driver.C01.step
+  return 0
